@@ -151,6 +151,9 @@ fn exec_cb(o: &str) -> bool {
 }
 
 pub fn check(hdr: &str, lines: &[String], trace: &[(String, Vec<String>)], mon: &mut dyn Write, stats: &mut Stats) {
+    // `disable` (the application stops and restarts communications) ends the session like a link error does
+    let mapped: Vec<(String, Vec<String>)> = trace.iter().map(|(o, r)| (if o == "disable" { "cut".to_string() } else { o.clone() }, r.clone())).collect();
+    let trace: &[(String, Vec<String>)] = &mapped;
     let d3_panic_op = crate::mon_outstation_db::check(hdr, lines, trace, mon);
     let mut cfg = CaseCfg::default();
     // resolved `cfm` ops need the last seqs: recompute like the engine does
